@@ -258,30 +258,6 @@ Proof.
     + destruct Hp as [<-|Hp]; [left; left; reflexivity|]. destruct (IH k x p Hp) as [Hi|Hs]; [left; right; exact Hi|right; exact Hs].
 Qed.
 
-Lemma kv_set_in l : forall i x p, In p (kv_set l i x) -> In p l \/ p = (i, x).
-Proof.
-  induction l as [|[j y] r IH]; intros i x p Hp; cbn [kv_set] in Hp.
-  - destruct Hp as [<-|[]]. right. reflexivity.
-  - destruct (Nat.eqb i j) eqn:E.
-    + apply Nat.eqb_eq in E. subst j. destruct Hp as [<-|Hp]; [right; reflexivity|left; right; exact Hp].
-    + destruct Hp as [<-|Hp]; [left; left; reflexivity|]. destruct (IH i x p Hp) as [Hi|Hs]; [left; right; exact Hi|right; exact Hs].
-Qed.
-
-Lemma kv_set_fst l : forall i x, map fst (kv_set l i x) = map fst l \/ (~ In i (map fst l) /\ map fst (kv_set l i x) = map fst l ++ [i]).
-Proof.
-  induction l as [|[j y] r IH]; intros i x; cbn [kv_set map fst].
-  - right. split; [intros []|reflexivity].
-  - destruct (Nat.eqb i j) eqn:E; [left; reflexivity|]. apply Nat.eqb_neq in E. cbn [map fst].
-    destruct (IH i x) as [->|[Hn ->]]; [left; reflexivity|]. right. split; [|reflexivity]. intros [Hj|Hi]; [congruence|exact (Hn Hi)].
-Qed.
-
-Lemma kv_set_nodup l i x : NoDup (map fst l) -> NoDup (map fst (kv_set l i x)).
-Proof.
-  intros Hn. destruct (kv_set_fst l i x) as [->|[Hi ->]]; [exact Hn|].
-  apply NoDup_rev in Hn. rewrite <- (rev_involutive (map fst l ++ [i])). apply NoDup_rev. rewrite rev_app_distr. cbn [rev app].
-  constructor; [rewrite <- in_rev; exact Hi|exact Hn].
-Qed.
-
 Lemma kv_get_in l : forall i x, kv_get l i = Some x -> In (i, x) l.
 Proof.
   induction l as [|[j y] r IH]; intros i x Hg; cbn [kv_get] in Hg; [discriminate|].
